@@ -418,6 +418,86 @@ func runC07(c *core.Ctx) {
 		}
 	}
 
+	// several attributes sharing a Name: a custom attribute named like one of the built-in ones, or two custom attributes with one Name.
+	// Each is an attribute of the session: all of them arrive, in order, with their own values.
+	c.Group("duplicate-attribute-names")
+	builtin := []string{"urn:oid:0.9.2342.19200300.100.1.1", "urn:oid:0.9.2342.19200300.100.1.3", "urn:oid:2.5.4.3", "urn:oid:2.5.4.4", "urn:oid:2.5.4.42", "urn:oid:1.3.6.1.4.1.5923.1.1.1.9", "urn:oid:1.3.6.1.4.1.5923.1.1.1.1", "urn:oid:1.3.6.1.4.1.5923.1.1.1.6", "urn:custom:attr", "uid", "mail"}
+	for _, cf := range []c07Cfg{base, encCfg} {
+		for _, name := range builtin {
+			for _, how := range []string{"custom-named-like-this", "two-customs-with-this-name", "three-customs-two-with-this-name"} {
+				cf, name, how := cf, name, how
+				key := fmt.Sprintf("dupattr/%s/%s/%s", how, name, cf)
+				c.Case(key, func(t *core.T) {
+					t.NonTrivial()
+					w := world(cf)
+					if w.err != nil {
+						t.Fail("C07/metadata-exchange/dupattr", "%v", w.err)
+						return
+					}
+					sess := c07Session(map[int]string{})
+					mk := func(n string, vals ...string) saml.Attribute {
+						a := saml.Attribute{Name: n, NameFormat: "urn:oasis:names:tc:SAML:2.0:attrname-format:uri"}
+						for _, v := range vals {
+							a.Values = append(a.Values, saml.AttributeValue{Type: "xs:string", Value: v})
+						}
+						return a
+					}
+					switch how {
+					case "custom-named-like-this":
+						sess.CustomAttributes = []saml.Attribute{mk(name, "custom-value-1")}
+					case "two-customs-with-this-name":
+						sess.CustomAttributes = []saml.Attribute{mk(name, "custom-value-1"), mk(name, "custom-value-2", "custom-value-3")}
+					default:
+						sess.CustomAttributes = []saml.Attribute{mk(name, "custom-value-1"), mk("urn:custom:other", "custom-value-4"), mk(name, "custom-value-2")}
+					}
+					var sent, got *saml.Assertion
+					var stage string
+					var err error
+					_, p := guard(func() error { sent, got, stage, err = w.roundTrip(cf, sess); return nil })
+					t.Impl(3)
+					t.Compared()
+					if p != "" {
+						t.Fail("C07/panic@"+p[strings.LastIndex(p, "@")+1:], "round trip panicked: %s", p)
+						return
+					}
+					if err != nil {
+						t.Fail("C07/roundtrip-fails/"+stage+"/duplicate-attribute-names", "%s: stage %s: %s", key, stage, privErr(err))
+						return
+					}
+					_ = sent
+					gl := attrList(got)
+					// the custom attributes, in session order, with exactly their values
+					pos := 0
+					for _, ca := range sess.CustomAttributes {
+						var vs []string
+						for _, v := range ca.Values {
+							vs = append(vs, v.Value)
+						}
+						want := fmt.Sprintf("%q/%q/%q=%q", ca.Name, ca.FriendlyName, ca.NameFormat, vs)
+						found := false
+						for pos < len(gl) {
+							pos++
+							if gl[pos-1] == want {
+								found = true
+								break
+							}
+						}
+						if !found {
+							t.Fail("C07/attributes-altered/duplicate-names", "%s: custom attribute %s is missing (or out of order) in what the SP returned: %q", key, want, gl)
+							return
+						}
+					}
+					have := strings.Join(gl, "\n")
+					for sv := range sessionStrings(sess) {
+						if sv != sess.NameID && !strings.Contains(have, fmt.Sprintf("%q", sv)) {
+							t.Fail("C07/attributes-altered/duplicate-names/value-lost", "%s: session string %+q did not arrive at the SP", key, sv)
+						}
+					}
+				})
+			}
+		}
+	}
+
 	// an IdP that lists intermediate certificates: the SP trusts only the published leaf
 	c.Group("idp-intermediates")
 	for _, cf := range []c07Cfg{base, encCfg} {
